@@ -129,7 +129,8 @@ def rec_str(data):
     sa = ','.join(f'{k}:{int(v)}' for k, v in data['stereo_atoms'].items())
     sb = ';'.join(f'{k}>' + ','.join(f'{m}:{int(b)}' for m, b in d.items()) for k, d in sorted(data['stereo_bonds'].items()))
     mp = ','.join(map(str, data.get('mapping', [])))
-    return f'atoms={atoms} bonds={bonds} order={order} satoms={sa} sbonds={sb} map={mp}'
+    st = ','.join(map(str, sorted(data.get('starts', ()))))
+    return f'atoms={atoms} bonds={bonds} order={order} satoms={sa} sbonds={sb} starts={st} map={mp}'
 
 
 def mol_str(m):
@@ -442,7 +443,7 @@ def features(s):
 
 
 def correspond(ctx):
-    ctx.cov['programs'] = 9  # smiles, smiles_tokenize, _tokenize, _atom_parse, parser, postprocess_parsed_molecule, postprocess_parsed_reaction, create_molecule, create_reaction
+    ctx.cov['programs'] = 10  # (+ smiles() judged by reference reader / RDKit) smiles, smiles_tokenize, _tokenize, _atom_parse, parser, postprocess_parsed_molecule, postprocess_parsed_reaction, create_molecule, create_reaction
     if not ctx.build_ok:
         ctx.notes.append('driver not built: correspondence skipped')
         return
@@ -483,6 +484,19 @@ def correspond(ctx):
             bad.setdefault('smiles_tokenize', []).append((s, mt, rt))
         if ms != rs:
             bad.setdefault('smiles', []).append((s, ms, rs))
+    # standing relational stream: the real reader judged by the independent reference reader + RDKit
+    skip = ('exhaustive-core',) if ctx.quick else ()
+    n_or = 0
+    for tag, s in cases:
+        if tag.startswith(skip) if skip else False:
+            continue
+        n_or += 1
+        r = oracle(s)
+        ctx.count(('O', s), len(s) >= 2)
+        if r is not None:
+            ctx.dist('oracle:' + r[0])
+            ctx.fail(r[0], r[1], {'smiles': s})
+    ctx.dist('oracle:judged', n_or)
     for name, lst in bad.items():
         ctx.cov['disagreements_checked'] += len(lst)
         lst.sort(key=lambda x: len(x[0]))
@@ -492,52 +506,252 @@ def correspond(ctx):
     ctx.exhaustive = False
 
 
+# ------------------------------------------------------------------------------------------------
+# property-level oracle (real code judged by independent readers; never consults the Lean model)
+# ------------------------------------------------------------------------------------------------
+
+_RD_ORDER = None
+
+
+def rdkit_view(text):
+    """(atoms, bonds) as RDKit reads the SMILES without sanitisation, or None"""
+    global _RD_ORDER
+    from rdkit import Chem, RDLogger
+    if _RD_ORDER is None:
+        RDLogger.DisableLog('rdApp.*')
+        _RD_ORDER = {Chem.BondType.SINGLE: 1, Chem.BondType.DOUBLE: 2, Chem.BondType.TRIPLE: 3, Chem.BondType.AROMATIC: 4}
+    try:
+        m = Chem.MolFromSmiles(text, sanitize=False)
+    except Exception:
+        return None
+    if m is None:
+        return None
+    atoms = [(a.GetAtomicNum(), a.GetIsotope() or None, a.GetFormalCharge()) for a in m.GetAtoms()]
+    bonds = {}
+    for b in m.GetBonds():
+        i, j = b.GetBeginAtomIdx(), b.GetEndAtomIdx()
+        o = _RD_ORDER.get(b.GetBondType())
+        if o is None:
+            return None
+        bonds[(min(i, j), max(i, j))] = o
+    return atoms, bonds
+
+
+def real_view(mols):
+    """concatenated (atoms, bonds, numbers) of built molecules, atoms by position"""
+    atoms, bonds, nums = [], {}, []
+    for m in mols:
+        off = len(atoms)
+        pos = {n: off + k for k, n in enumerate(m._atoms)}
+        for n, a in m._atoms.items():
+            atoms.append((a.atomic_number, a.isotope, a.charge))
+            nums.append(n)
+        for n, ms in m._bonds.items():
+            for k, b in ms.items():
+                i, j = pos[n], pos[k]
+                bonds[(min(i, j), max(i, j))] = int(b)
+    return atoms, bonds, nums
+
+
+def _tabulated(g):
+    from chython.periodictable import Element
+    for a in g.atoms:
+        if a.isotope is not None:
+            if a.isotope not in Element.from_atomic_number(a.z)().isotopes_distribution:
+                return False
+    return True
+
+
+_CX_RAD = __import__('re').compile(r'\^[1-7]:([0-9]+(?:,[0-9]+)*)')
+
+
+def ref_read(text):
+    """reference reading of a whole input line: ('mol', graph) | ('rxn', [g|None]*3) ; raises Reject"""
+    from . import c03_ref as R
+    words = text.split()
+    if not words:
+        raise R.Reject('blank')
+    smi = words[0]
+    rad = []
+    if len(words) > 1 and words[1].startswith('|') and words[1].endswith('|'):
+        for m in _CX_RAD.finditer(words[1]):
+            rad += [int(x) for x in m.group(1).split(',')]
+    if '>' in smi:
+        parts = smi.split('>')
+        if len(parts) != 3:
+            raise R.Reject('reaction needs exactly two >')
+        gs = [R.parse(p) if p else None for p in parts]
+        if not any(gs):
+            raise R.Reject('empty reaction')
+        n = sum(len(g.atoms) for g in gs if g)
+    else:
+        gs = R.parse(smi)
+        n = len(gs.atoms)
+    if len(set(rad)) == len(rad) and any(x >= n for x in rad):
+        raise R.Reject('radical index beyond the last atom')
+    return ('rxn' if '>' in smi else 'mol'), gs
+
+
+def classify_accept(s, obj):
+    """real accepted, reference rejected: name the class (stable part of the signature)"""
+    import re
+    smi = s.split()[0]
+    if '~' in smi:
+        return None                      # any-bond: documented chython extension of the bond alphabet, not judged
+    log = ' '.join(map(str, (getattr(obj, 'meta', None) or {}).get('chython_parsing_log', [])))
+    if 'ignored' in log and 'molecule' in log:
+        return 'reaction-drops-invalid-molecule'
+    if 'two dots' in log:
+        return 'reaction-empty-component'
+    if re.search(r'%[0-9]($|[>.])', smi):
+        return 'percent-single-digit-at-end'
+    if re.search(r'(^|[>.])\(', smi):
+        return 'leading-branch'
+    return 'other'
+
+
+def classify_reject(s, kind, gs):
+    smi = s.split()[0]
+    graphs = [g for g in (gs if kind == 'rxn' else [gs]) if g]
+    if not all(_tabulated(g) for g in graphs):
+        return None                      # isotope the periodic table does not list: outside the supported domain
+    if any(getattr(g, 'ring_zero', False) for g in graphs):
+        return 'ring-number-0'
+    if kind == 'rxn':
+        from . import c03_ref as R
+        for part in smi.split('>'):
+            for comp in part.split('.'):
+                if comp:
+                    try:
+                        R.parse(comp)
+                    except R.Reject:
+                        return 'reaction-split-at-dot'
+    return 'other'
+
+
 def oracle(s):
     """property-level judgement of ONE string on the real code (never consults the Lean model).
     returns None if the property holds, else (signature, what)"""
+    from . import c03_ref as R
     _, S, _ = _mods()
+    from chython import ReactionContainer
     try:
         obj = S.smiles(s)
-    except ValueError:
-        return None
+    except ValueError as e:
+        obj, err = None, e
     except Exception as e:
         return f'C03/unrelated-exception/{type(e).__name__}', f'smiles({s!r}) raised {type(e).__name__}: {e}'
+    try:
+        kind, gs = ref_read(s)
+    except R.Reject as e:
+        kind, gs, why = None, None, str(e)
+    except Exception as e:  # the reference reader must never be the reason of an alarm
+        return None
+    if obj is None:
+        if kind is None:
+            return None
+        c = classify_reject(s, kind, gs)
+        if c is None:
+            return None
+        return (f'C03/rejects-language-string/{c}',
+                f'smiles({s!r}) raised {type(err).__name__}: {err}; the reference reader accepts it')
+    if kind is None:
+        c = classify_accept(s, obj)
+        if c is None:
+            return None
+        return (f'C03/accepts-outside-language/{c}', f'smiles({s!r}) = {obj}; the reference reader rejects it: {why}')
+    # both accept: same graph?
+    is_rxn = isinstance(obj, ReactionContainer)
+    if is_rxn != (kind == 'rxn'):
+        return 'C03/wrong-kind', f'smiles({s!r}) built a {type(obj).__name__}'
+    words = s.split()
+    contracted = len(words) > 1 and 'f:' in words[1]
+    if is_rxn:
+        log = ' '.join(map(str, (obj.meta or {}).get('chython_parsing_log', [])))
+        if 'ignored' in log and 'molecule' in log:
+            if all(_tabulated(g) for g in gs if g):
+                return ('C03/accepts-outside-language/reaction-drops-invalid-molecule',
+                        f'smiles({s!r}) = {obj}: a molecule the builder rejected was silently dropped')
+            return None
+        roles = [(obj.reactants, gs[0]), (obj.reagents, gs[1]), (obj.products, gs[2])]
+    else:
+        roles = [([obj], gs)]
+    for mols, g in roles:
+        atoms, bonds, nums = real_view(mols)
+        ra, rb = R.view(g) if g else ([], {})
+        if contracted:
+            if sorted((a[0], a[1] or 0, a[2]) for a in ra) != sorted((a[0], a[1] or 0, a[2]) for a in atoms) or len(rb) != len(bonds):
+                return 'C03/wrong-graph/contracted', f'smiles({s!r}) = {obj}: atoms/bond count differ from the reference reading'
+            continue
+        if [(a[0], a[1], a[2]) for a in ra] != atoms:
+            return 'C03/wrong-graph/atoms', f'smiles({s!r}): atoms {atoms} vs reference {[(a[0], a[1], a[2]) for a in ra]}'
+        if rb != bonds:
+            diff = sorted(set(rb.items()) ^ set(bonds.items()))[:6]
+            return 'C03/wrong-graph/bonds', f'smiles({s!r}): bonds differ from the reference reading: {diff}'
+        if not is_rxn:
+            classes = [a[3] for a in ra]
+            for k, c in enumerate(classes):
+                if c and classes.index(c) == k and nums[k] != c:
+                    return 'C03/wrong-graph/atom-number', f'smiles({s!r}): atom {k} has class {c} but number {nums[k]}'
+    # RDKit as a second, fully independent reader (molecules without CXSMILES only)
+    if not is_rxn and len(words) == 1 and '~' not in s:
+        rv = rdkit_view(s)
+        if rv is not None:
+            atoms, bonds, _ = real_view([obj])
+            if rv[0] != atoms or rv[1] != bonds:
+                return 'C03/wrong-graph/vs-rdkit', f'smiles({s!r}): {atoms} {bonds} but RDKit reads {rv}'
     return None
 
 
 def probe(inp):
-    s = inp['smiles']
-    kind = inp.get('kind', 'oracle')
-    if kind == 'oracle':
+    """re-execute one input (or a short list of inputs of the same finding) on the real code"""
+    ss = inp['smiles']
+    ss = [ss] if isinstance(ss, str) else list(ss)
+    want = inp.get('signature')
+    out = []
+    for s in ss:
         r = oracle(s)
-        if r is None:
-            return False, f'smiles({s!r}): property holds (ValueError or accepted)'
-        return True, r[1]
-    return False, 'unknown probe kind'
+        if r is not None and (want is None or r[0] == want):
+            out.append(r[1])
+    if out:
+        return True, ' ; '.join(out)
+    return False, '; '.join(f'smiles({s!r}): property holds' for s in ss)
 
 
 def search(ctx):
+    """failing-input search: property-level oracle on the real code, starting from the disagreeing strings, then
+    their single-/double-edit neighbourhood, then handmade + corrupted grammar strings"""
     rng = ctx.rng
-    seeds = list(getattr(ctx, '_c03_disagree', []))
+    seeds = list(dict.fromkeys(getattr(ctx, '_c03_disagree', [])))
     tried = set()
-    budget = 4000 if ctx.quick else 40000
-    pool = seeds + HANDMADE
-    for s in pool:
-        if s in tried:
-            continue
+    found = set()
+
+    def judge(s):
+        if not s or s in tried or any(ord(c) > 126 for c in s):
+            return
         tried.add(s)
         r = oracle(s)
         if r:
-            ctx.fail(r[0], r[1], {'kind': 'oracle', 'smiles': s})
+            found.add(r[0])
+            ctx.fail(r[0], r[1], {'smiles': s})
+
+    for s in seeds:
+        judge(s)
+    # systematic single-edit neighbourhood of the shortest disagreeing strings
+    for s in sorted(seeds, key=len)[:40]:
+        for i in range(len(s) + 1):
+            judge(s[:i] + s[i + 1:])
+            for c in ALPHA_FULL:
+                judge(s[:i] + c + s[i:])
+                judge(s[:i] + c + s[i + 1:])
+    for s in HANDMADE:
+        judge(s)
+    budget = 6000 if ctx.quick else 60000
+    pool = seeds + HANDMADE + [gen_mol(rng) for _ in range(300)] + [gen_reaction(rng) for _ in range(100)]
     n = 0
-    while n < budget and pool:
+    while n < budget:
         s = rng.choice(pool)
-        for _ in range(rng.choice([1, 1, 2, 3])):
+        for _ in range(rng.choice([0, 1, 1, 2, 3])):
             s = corrupt(rng, s)
         n += 1
-        if s in tried or not s:
-            continue
-        tried.add(s)
-        r = oracle(s)
-        if r:
-            ctx.fail(r[0], r[1], {'kind': 'oracle', 'smiles': s})
+        judge(s)
